@@ -215,6 +215,12 @@ def run(run):
                 t2 = " ".join(ws[:pos] + [stray] + ws[pos:])
                 sreqs.append(sqlgen.parse_request("statements", d, t2))
                 smeta.append((d, t, t2, "zq9" if "zq9" in stray else ("ZQ9" if "ZQ9" in stray else "979797")))
+    # a stray word in a slot that is read with a bare pop (the save mode of a generated column, ...)
+    for d, t2 in (("MYSQL", "CREATE TABLE t (d INT GENERATED ALWAYS AS (a) zq9 NULL)"), ("MYSQL", "ALTER TABLE t ADD d INT GENERATED ALWAYS AS (a + 1) zq9 NOT NULL"),
+                  ("MYSQL", "CREATE TABLE t (d INT GENERATED ALWAYS AS (a) 979797 COMMENT 'c')"), ("HIVE", "SELECT a FROM t LATERAL VIEW explode(x) zq9 lv AS e"),
+                  ("MYSQL", "CREATE TABLE t (a INT, CONSTRAINT c1 FOREIGN KEY (a) REFERENCES o zq9 (id))"), ("MYSQL", "SET a = b zq9")):
+        sreqs.append(sqlgen.parse_request("statements", d, t2))
+        smeta.append((d, t2.replace(" zq9", "").replace(" 979797", ""), t2, "zq9" if "zq9" in t2 else "979797"))
     sim = core.run_impl(sreqs)
     smo = core.run_model(sreqs)
     dis += stmt.tie(run, "PARSE stray", sreqs, smo, sim, [m[2] for m in smeta])
